@@ -4,6 +4,7 @@
 use std::collections::{HashMap, HashSet};
 use std::hash::Hash;
 pub const CAP: usize = 3; // @CAP@
+pub type VecM<T> = Vec<T>;
 pub fn any_map<K: Eq + Hash, V, FK: FnMut() -> K, FV: FnMut() -> V>(mut fk: FK, mut fv: FV) -> HashMap<K, V> {
     let mut m = HashMap::new();
     let mut i = 0;
